@@ -79,6 +79,11 @@ func (f *fileEvent) OnEvent(progress *PackageProgress) {
 			len(progress.Record), progress.ExtensionFields.ActiveSafetyType.String())
 		_ = os.MkdirAll(phone, os.ModePerm)
 		for name, pack := range progress.Record {
+			if name == "" || name == "." || name == ".." || strings.ContainsAny(name, "/\\") {
+				// 文件名只能是单独的一级名称 不能跳出手机号目录
+				str += fmt.Sprintf("文件名[%q]不合法 不保存\n", name)
+				continue
+			}
 			savePath := fmt.Sprintf("./%s/%s", phone, name)
 			err := os.WriteFile(savePath, pack.StreamBody, os.ModePerm)
 			str += fmt.Sprintf("保存文件[%s] 文件大小[%d byte] 保存情况[%v]\n",
